@@ -122,6 +122,11 @@ def catalogue(n, origin=0, rng=None):
             for x in extra:
                 if not any(type(x) is type(a) and repr(x) == repr(a) for a in alts):
                     alts.append(x)
+    # the text of an integer label is not that label: '2003' is absent from a span of ints (and 2003 from a span of digit strings)
+    for spec in out:
+        prim = [a[0] for a in spec.labels]
+        if prim and all(isinstance(x, (int, np.integer)) and not isinstance(x, (bool, np.bool_)) for x in prim):
+            spec.absent = list(spec.absent) + [str(prim[0]), str(prim[-1]), f' {prim[0]}', f'{prim[0]}.0']
     # absent labels of every hashable kind, whatever the span holds (none of them equals a label of any spec above)
     for spec in out:
         spec.absent = list(spec.absent) + [x for x in EXOTIC_ABSENT if not any(type(x) is type(a) and x == a for a in spec.absent)]
